@@ -107,6 +107,21 @@ def trig_has_latin_square(case):
     return _has_con(case, "LatinSquare")
 
 
+def trig_run_length_on_strided_factor(case):
+    F = _factors(case)
+    return any(k["c"] in ("AtMostKInARow", "AtLeastKInARow", "ExactlyKInARow") and F[k["f"] - 1]["kind"] == "d"
+               and F[k["f"] - 1]["stride"] > 1 for k in _all_cons(case["block"]))
+
+
+def trig_weighted_uncrossed_basic(case):
+    """a non-derived factor with a weighted level that is in no crossing (the library rewrites it into a hidden pair of factors)"""
+    F = _factors(case)
+    crossed = set(i for X in _crossings(case["block"]) for i in X)
+    import ir_ids
+    return any(F[i - 1]["kind"] == "b" and any(w > 1 for w in F[i - 1]["w"]) and i not in crossed
+               for i in ir_ids.design_ids(case["block"]))
+
+
 def trig_has_minimum_trials(case):
     return _has_con(case, "MinimumTrials")
 
@@ -142,6 +157,8 @@ TRIGGERS = {
     "has_latin_square": trig_has_latin_square,
     "repeat_or_merge": trig_repeat_or_merge,
     "has_minimum_trials": trig_has_minimum_trials,
+    "weighted_uncrossed_basic": trig_weighted_uncrossed_basic,
+    "run_length_on_strided_factor": trig_run_length_on_strided_factor,
     "uncrossed_transition": trig_uncrossed_transition,
     "derived_of_complex": trig_derived_of_complex,
     "any": trig_any,
